@@ -173,8 +173,9 @@ func (c14) Exec(seed int64, i int, tier string) Record {
 	plain := Config(false, nil)
 	var p *Path
 	var expCalls []string // model-free expectation (tail, infil)
-	var sim c14Sim        // tail only
-	var v0 Outcome        // tail: the steps alone
+	infilTwoPaths := false
+	var sim c14Sim // tail only
+	var v0 Outcome // tail: the steps alone
 	haveExp := false
 	var opFns []Fn
 	var opPath *Path
@@ -237,6 +238,16 @@ func (c14) Exec(seed int64, i int, tier string) Record {
 				lit = Lit{Kind: LitNum, N: int64(r.Range(-2, 5))}
 			}
 			q = &Query{Kind: QCmp, Op: cmpOp, L: &Operand{Path: op}, R: &Operand{IsLit: true, Lit: lit}}
+			if head == HeadRoot && r.Chance(55) {
+				// the other operand is a function-free `@`-path that often misses or is mistyped: the `$`-operand
+				// (and the function in it) must be evaluated all the same, once per filtered container
+				o2 := o
+				o2.ErrBias = 45
+				other := &Path{Head: HeadCur}
+				other.Steps, _, _ = o2.genSingleSteps(r, rep, hasRep, 2)
+				q.R = &Operand{Path: other}
+				infilTwoPaths = true
+			}
 			if r.Chance(30) {
 				q.L, q.R = q.R, q.L
 			}
@@ -305,6 +316,9 @@ func (c14) Exec(seed int64, i int, tier string) Record {
 	text := Render(p, r)
 	rec := Record{Text: text, Doc: JSONText(doc), Info: map[string]interface{}{}, Tags: stepTags(p)}
 	rec.Tags = append(rec.Tags, "family:"+family)
+	if infilTwoPaths {
+		rec.Tags = append(rec.Tags, "infil:fn-in-$-operand-vs-@-path")
+	}
 	if jn {
 		rec.Tags = append(rec.Tags, "decode:jnum")
 	}
